@@ -71,7 +71,9 @@ def san_key(msg):
 
 def build(win, asserts=False):
     fl = BASE_FLAGS + ("" if asserts else " -DNDEBUG") + " " + WINDOWS[win]["flags"]
-    return vlib.build_header_harness("c12_%s%s" % (win, "_as" if asserts else ""), SRC, "asan", extra_flags=fl)
+    import hashlib
+    rtag = hashlib.md5(os.path.abspath(vlib.REPO).encode()).hexdigest()[:4]     # per-tree name: concurrent runs on other trees do not prune it
+    return vlib.build_header_harness("c12_%s%s_%s" % (win, "_as" if asserts else "", rtag), SRC, "asan", extra_flags=fl)
 
 
 def harness_consts(exe):
@@ -500,11 +502,12 @@ def corrupt(cx, win, exe, inputs, cfg, strides, parse_max=None, aw_cfg=None):
     evs = [(i, kind, pos, val, None, msg) for i, kind, pos, val, msg in res["MCRASH"]] + [(i, kind, pos, val, eq, "") for i, kind, pos, val, eq in res["ACC"]]
     cases, meta, per_key = [], [], {}
     nreal = nbytes = 0
-    lim = None if parse_max is None else max(parse_max, 60000)
+    lim = None if parse_max is None else max(parse_max, 30000)
     for i, kind, pos, val, eq, msg in evs:
         enc = res["MUT"][i][3] if i in res["MUT"] else res["MUTENC"].get(i)
         m = mutated(enc, kind, pos, val) if enc is not None else None
-        if m is None or (lim is not None and len(m) > lim) or nreal >= 2000 or nbytes + len(m) > 1500000:
+        if (m is None or (lim is not None and len(m) > lim) or nreal >= 2000 or nbytes + len(m) > 400000
+                or (win == "prod" and eq is None)):   # production window: sanitizer reports are keyed by their text
             cases.append(None)   # not classified by TLC (too long / too many): reported under a key that is never "known"
         else:
             cases.append({"id": len(cases), "src": list(m), "inp": list(inputs[i][1])})
